@@ -7,6 +7,7 @@
 #pragma once
 
 #include <pika/config.hpp>
+#include <pika/config/verif_hooks.hpp>
 #include <pika/assert.hpp>
 #include <pika/debugging/print.hpp>
 #include <pika/schedulers/lockfree_queue_backends.hpp>
@@ -469,6 +470,7 @@ namespace pika::threads::detail {
                 // Take ownership of the thread object and rebind it.
                 tid = heap->front();
                 heap->pop_front();
+                PIKA_VERIF_POINT(::pika::verif::tq_reuse, threads::detail::get_thread_id_data(tid), 0, 0);
                 threads::detail::get_thread_id_data(tid)->rebind(data);
                 ::pika::detail::tq_deb.debug(debug::detail::str<>("create_thread_object"), "rebind",
                     queue_data_print(this),
@@ -487,6 +489,7 @@ namespace pika::threads::detail {
                 }
                 else { p = threads::detail::thread_data_stackful::create(data, this, stacksize); }
                 tid = threads::detail::thread_id_ref_type(p, threads::detail::thread_id_addref::no);
+                PIKA_VERIF_POINT(::pika::verif::tq_create_new, p, 0, 0);
 
                 ::pika::detail::tq_deb.debug(debug::detail::str<>("create_thread_object"), "new",
                     queue_data_print(this),
@@ -499,6 +502,7 @@ namespace pika::threads::detail {
         void recycle_thread(threads::detail::thread_id_type tid)
         {
             std::ptrdiff_t stacksize = threads::detail::get_thread_id_data(tid)->get_stack_size();
+            PIKA_VERIF_POINT(::pika::verif::tq_recycle, threads::detail::get_thread_id_data(tid), 0, 0);
 
             if (stacksize == parameters_.small_stacksize_) { thread_heap_small_.push_front(tid); }
             else if (stacksize == parameters_.medium_stacksize_)
@@ -820,6 +824,7 @@ namespace pika::threads::detail {
         {
             // the thread must be destroyed by the same queue holder that created it
             PIKA_ASSERT(&thrd->get_queue<queue_holder_thread>() == this);
+            PIKA_VERIF_POINT(::pika::verif::tq_destroy, thrd, 0, 0);
             //
 #ifdef PIKA_HAVE_THREAD_STACK_MMAP
             ::pika::detail::tq_deb.debug(debug::detail::str<>("destroy"), "terminated_items push",
